@@ -1,8 +1,8 @@
 (* Lemmas_SpecMp11.v - backmp11 (favor_runtime_speed, both dispatch strategies, and favor_compile_time) refines the
    specification of Spec.v on the core fragment: same statement as Lemmas_SpecBack.v, for the other engine (event pool
    instead of two queues, visitors, history in the front-end, m_running). *)
-From Msm Require Import Run Lemmas_C19 Lemmas_Rows Lemmas_Sim Spec Lemmas_Core.
-From Coq Require Import Lia.
+From Msm Require Import Run Lemmas_C19 Lemmas_Rows Lemmas_Sim Spec Lemmas_Core Lemmas_Fifo.
+From Coq Require Import Lia ZArith.
 
 (* ---- quiet trees of backmp11 ---- *)
 Definition kid_running (rn:rnode) (s:nat) : Prop :=
@@ -17,22 +17,25 @@ Fixpoint okm (mc:machine) {struct mc} : rnode -> Prop :=
 Definition okm_subs (mc:machine) : list (option (rnode -> Prop)) :=
   map (fun st => match s_sub st with Some c => Some (okm c) | None => None end) (m_states mc).
 (* the level while it dispatches: its own marker may be set, the slot of the transitioning region is in flux *)
-Definition okmL (mc:machine) (rn:rnode) : Prop :=
-  msgq rn = [] /\ length (act rn) = m_nreg mc /\ length (hist rn) = m_nreg mc /\ Forall2 slot_okP (okm_subs mc) (kids rn).
+(* `q`: the content of the level's own pool and, when given, the value of its sequence counter *)
+Definition seq_is (c:option Z) (rn:rnode) : Prop := match c with Some z => curseq rn = z | None => True end.
+Definition okmLq (q:list qitem * option Z) (mc:machine) (rn:rnode) : Prop :=
+  (msgq rn = fst q /\ seq_is (snd q) rn) /\ length (act rn) = m_nreg mc /\ length (hist rn) = m_nreg mc /\ Forall2 slot_okP (okm_subs mc) (kids rn).
+Definition okmL (mc:machine) (rn:rnode) : Prop := okmLq ([], None) mc rn.
 
 Lemma okm_unfold mc rn : okm mc rn <-> okmL mc rn /\ processing rn = false /\ (running rn = true -> act_run rn).
-Proof. destruct mc; unfold okmL, okm_subs; cbn [okm m_states]. tauto. Qed.
+Proof. destruct mc; unfold okmL, okmLq, okm_subs, seq_is; cbn [okm m_states fst snd]. tauto. Qed.
 
 Lemma okm_init : forall mc, okm mc (init_rnode mc).
 Proof.
   fix IH 1. intros mc. apply okm_unfold. destruct mc as [states inits rows irows hist].
-  unfold okmL, okm_subs, m_nreg. cbn [m_states m_inits init_rnode kids msgq act Syntax.hist processing running].
+  unfold okmL, okmLq, okm_subs, m_nreg. cbn [m_states m_inits init_rnode kids msgq act Syntax.hist processing running].
   split; [|split; [reflexivity | discriminate]]. repeat split.
   induction states as [|st t IHt]; cbn [map]; constructor; auto.
   destruct st as [k sub si df fl z]. cbn. destruct sub as [c|]; cbn; auto.
 Qed.
 
-Lemma okmL_kid mc rn s c : okmL mc rn -> s_sub (get_state mc s) = Some c -> exists kn, nth s (kids rn) None = Some kn /\ okm c kn.
+Lemma okmL_kid {q} mc rn s c : okmLq q mc rn -> s_sub (get_state mc s) = Some c -> exists kn, nth s (kids rn) None = Some kn /\ okm c kn.
 Proof.
   intros (_ & _ & _ & H) Hs. unfold okm_subs, get_state in *.
   revert s Hs. generalize dependent (kids rn). generalize (m_states mc) as states.
@@ -42,7 +45,7 @@ Proof.
     + rewrite Hs in Hok. destruct k as [kn|]; cbn in Hok; [|contradiction]. eauto.
     + eapply IH; eauto.
 Qed.
-Lemma okmL_nokid mc rn s : okmL mc rn -> s_sub (get_state mc s) = None -> nth s (kids rn) None = None.
+Lemma okmL_nokid {q} mc rn s : okmLq q mc rn -> s_sub (get_state mc s) = None -> nth s (kids rn) None = None.
 Proof.
   intros (_ & _ & _ & H) Hs. unfold okm_subs, get_state in *.
   revert s Hs. generalize dependent (kids rn). generalize (m_states mc) as states.
@@ -52,19 +55,32 @@ Proof.
     + rewrite Hs in Hok. destruct k; cbn in Hok; [contradiction | reflexivity].
     + eapply IH; eauto.
 Qed.
-Lemma okmL_set_kid mc rn s c kn : okmL mc rn -> s_sub (get_state mc s) = Some c -> okm c kn ->
-  okmL mc (set_kids rn (upd (kids rn) s (Some kn))).
+Lemma okmL_set_kid {q} mc rn s c kn : okmLq q mc rn -> s_sub (get_state mc s) = Some c -> okm c kn ->
+  okmLq q mc (set_kids rn (upd (kids rn) s (Some kn))).
 Proof.
   intros (A & B & C & H) Hs Hk. pose proof (sub_in_range mc s c Hs) as Hlt.
-  unfold okmL. destruct rn as [a ks h q d cs p r]. cbn in *. repeat split; auto.
+  unfold okmLq. destruct rn as [a ks h q0 d cs p r]. cbn in *. split; [exact A|]. repeat split; auto.
   eapply Forall2P_upd; eauto. unfold okm_subs. rewrite nth_error_map.
   unfold get_state in Hs. rewrite (nth_error_nth' _ dummy_state Hlt). cbn. rewrite Hs. reflexivity.
 Qed.
-Lemma okmL_set_slot mc rn r s : okmL mc rn -> okmL mc (set_act rn (upd (act rn) r s)).
-Proof. destruct rn. unfold okmL. cbn. rewrite upd_length. tauto. Qed.
-Lemma okmL_set_processing mc rn a : okmL mc rn -> okmL mc (set_processing rn a). Proof. destruct rn; exact (fun H => H). Qed.
-Lemma okmL_set_curseq mc rn a : okmL mc rn -> okmL mc (set_curseq rn a). Proof. destruct rn; exact (fun H => H). Qed.
-Lemma okmL_set_running mc rn a : okmL mc rn -> okmL mc (set_running rn a). Proof. destruct rn; exact (fun H => H). Qed.
+Lemma okmL_set_slot {q} mc rn r s : okmLq q mc rn -> okmLq q mc (set_act rn (upd (act rn) r s)).
+Proof. destruct rn. unfold okmLq. cbn. rewrite upd_length. tauto. Qed.
+Lemma okmL_set_processing {q} mc rn a : okmLq q mc rn -> okmLq q mc (set_processing rn a). Proof. destruct rn; exact (fun H => H). Qed.
+Lemma okmL_set_curseq {l c} mc rn a : okmLq (l, c) mc rn -> okmLq (l, None) mc (set_curseq rn a).
+Proof. destruct rn. unfold okmLq, seq_is. cbn. tauto. Qed.
+Lemma okmL_set_curseq_to {l c} mc rn a : okmLq (l, c) mc rn -> okmLq (l, Some a) mc (set_curseq rn a).
+Proof. destruct rn. unfold okmLq, seq_is. cbn. tauto. Qed.
+Lemma okmL_set_msgq {l c} mc rn l' : okmLq (l, c) mc rn -> okmLq (l', c) mc (set_msgq rn l').
+Proof. destruct rn. unfold okmLq, seq_is. cbn. tauto. Qed.
+Lemma okmL_forget {l c} mc rn : okmLq (l, c) mc rn -> okmLq (l, None) mc rn.
+Proof. unfold okmLq, seq_is. cbn. tauto. Qed.
+Lemma okmL_seq {l c} mc rn : okmLq (l, Some c) mc rn -> curseq rn = c.
+Proof. unfold okmLq, seq_is. cbn. tauto. Qed.
+Lemma okmL_msgq {q} mc rn : okmLq q mc rn -> msgq rn = fst q.
+Proof. unfold okmLq. tauto. Qed.
+Lemma okmL_know {l} mc rn : okmLq (l, None) mc rn -> okmLq (l, Some (curseq rn)) mc rn.
+Proof. unfold okmLq, seq_is. cbn. tauto. Qed.
+Lemma okmL_set_running {q} mc rn a : okmLq q mc rn -> okmLq q mc (set_running rn a). Proof. destruct rn; exact (fun H => H). Qed.
 
 (* a fold that re-reads the region's slot is the fold over the list of active ids when the steps leave it alone *)
 Lemma fold_slots (f:nat -> sres -> sres) :
@@ -89,6 +105,35 @@ Proof.
   unfold sp_enter_state. destruct acc as [items c]. destruct (nth s subs None) as [[m f]|]; [|reflexivity].
   destruct (nth s (c_kids c) None) as [k|]; [|reflexivity]. destruct (f ev _). destruct c; reflexivity.
 Qed.
+
+(* ---- events stored in the level's own pool (enqueue_event from outside) ---- *)
+Definition mkqm (s0:Z) (e:evt) : qitem := QEv e 0 s0 false.
+(* the sequence value s0 the stored occurrences carry stays apart from the next n values of the counter *)
+Definition apart (s0 c:Z) (n:nat) : Prop := forall j, j < n -> ((s0 - (c + Z.of_nat j)) mod MW <> 0)%Z.
+
+Lemma apart_now s0 c n : apart s0 c (S n) -> Z.eqb s0 c = false.
+Proof.
+  intros H. apply Z.eqb_neq. intros ->. apply (H 0); [lia|]. cbn [Z.of_nat]. rewrite Z.add_0_r, Z.sub_diag. reflexivity.
+Qed.
+Lemma apart_next s0 c n : apart s0 c (S n) -> apart s0 (wrap_mp11 (c + 1)) n.
+Proof.
+  intros H j Hj. rewrite wrap_mp11_mod. specialize (H (S j) ltac:(lia)).
+  replace (s0 - ((c + 1) mod MW + Z.of_nat j))%Z with ((s0 - Z.of_nat j) - (c + 1) mod MW)%Z by lia.
+  rewrite Zminus_mod_idemp_r. replace (s0 - Z.of_nat j - (c + 1))%Z with (s0 - (c + Z.of_nat (S j)))%Z by lia. exact H.
+Qed.
+Lemma apart_stored c n : (Z.of_nat n < MW)%Z -> apart (wrap_mp11 (c - 1)) c n.
+Proof.
+  intros Hn j Hj. rewrite wrap_mp11_mod.
+  replace ((c - 1) mod MW - (c + Z.of_nat j))%Z with (- (c + Z.of_nat j) + (c - 1) mod MW)%Z by lia.
+  rewrite Zplus_mod_idemp_r. replace (- (c + Z.of_nat j) + (c - 1))%Z with (- (Z.of_nat j + 1))%Z by lia.
+  rewrite MW_val in *. intros E. apply Z_mod_zero_opp_full in E. rewrite Z.opp_involutive in E.
+  rewrite Z.mod_small in E by lia. lia.
+Qed.
+Lemma apart_stored_next c n : (Z.of_nat n + 1 < MW)%Z -> apart (wrap_mp11 (c - 1)) (wrap_mp11 (c + 1)) n.
+Proof. intros Hn. apply apart_next. apply apart_stored. lia. Qed.
+
+Lemma code_not_deferred c h rj : code_ok c h rj -> Nat.eqb c HANDLED_DEFERRED = false /\ has_bits c HANDLED_DEFERRED = false.
+Proof. unfold code_ok. destruct h; [intros [->| ->] | destruct rj; intros ->]; split; reflexivity. Qed.
 
 Section Mp11Spec.
 Variable cf : cfg.
@@ -160,9 +205,9 @@ Lemma sim_mcb k id ev w rn :
 Proof. apply sim_callback_at. auto. Qed.
 
 (* ---- leaving a state ---- *)
-Lemma Lm_exit fuel s ev rn : okmL mc rn -> kid_running rn s ->
+Lemma Lm_exit {q} fuel s ev rn : okmLq q mc rn -> kid_running rn s ->
   sim val (mexec_exit cf contained mc children fuel s ev) rn
-      (fun _ rn' items => okmL mc rn' /\ processing rn' = processing rn /\ running rn' = running rn /\ act rn' = act rn /\
+      (fun _ rn' items => okmLq q mc rn' /\ processing rn' = processing rn /\ running rn' = running rn /\ act rn' = act rn /\
                           (forall s', kid_running rn s' -> kid_running rn' s') /\
                           (items, abs rn') = sp_exit_state (sp_exit_subs mc) ev s ([], abs rn)).
 Proof.
@@ -198,9 +243,9 @@ Proof.
 Qed.
 
 (* ---- entering a state ---- *)
-Lemma Lm_entry fwd fuel s ev rn : okmL mc rn -> 1 <= fuel ->
+Lemma Lm_entry {q} fwd fuel s ev rn : okmLq q mc rn -> 1 <= fuel ->
   sim val (mexec_entry_gen cf contained mc children fwd fuel s ev EkPlain) rn
-      (fun _ rn' items => okmL mc rn' /\ processing rn' = processing rn /\ running rn' = running rn /\ act rn' = act rn /\
+      (fun _ rn' items => okmLq q mc rn' /\ processing rn' = processing rn /\ running rn' = running rn /\ act rn' = act rn /\
                           kid_running rn' s /\ (forall s', kid_running rn s' -> kid_running rn' s') /\
                           (items, abs rn') = sp_enter_state (sp_enter_subs mc) ev s ([], abs rn)).
 Proof.
@@ -276,9 +321,10 @@ Lemma kid_running_set_act rn a s : kid_running (set_act rn a) s <-> kid_running 
 Proof. unfold kid_running. destruct rn; reflexivity. Qed.
 
 (* the level between two steps of its dispatch: shape, and every active submachine has been entered *)
-Definition lvl (rn:rnode) : Prop := okmL mc rn /\ act_run rn.
+Definition lvlq (q:list qitem * option Z) (rn:rnode) : Prop := okmLq q mc rn /\ act_run rn.
+Notation lvl := (lvlq ([], None)).
 
-Lemma Lm_take fuel r x ev rn : lvl rn -> 1 <= fuel -> core_row' x ->
+Lemma Lm_take {q} fuel r x ev rn : lvlq q rn -> 1 <= fuel -> core_row' x ->
   (tgt_state (r_tgt x) <> None -> r_src x = nth r (act rn) 0 /\ r < length (act rn)) ->
   sim val (match tgt_state (r_tgt x) with
            | None => mrun_action cf mc children x ev
@@ -293,7 +339,7 @@ Lemma Lm_take fuel r x ev rn : lvl rn -> 1 <= fuel -> core_row' x ->
                on_state_entry_completed mc nxt r ;;
                ret res
            end) rn
-      (fun code rn' items => lvl rn' /\ processing rn' = processing rn /\ running rn' = running rn /\ code = HANDLED_TRUE /\
+      (fun code rn' items => lvlq q rn' /\ processing rn' = processing rn /\ running rn' = running rn /\ code = HANDLED_TRUE /\
                              (items, abs rn') = sp_take pol mc r x ev (abs rn)).
 Proof.
   intros (Hok & Hrun) Hfuel (Hd & _ & Htgt) Hsrc. unfold sp_take.
@@ -304,12 +350,12 @@ Proof.
     destruct (Hsrc ltac:(discriminate)) as (Esrc & Hrlt).
     assert (Hcur : kid_running rn cur) by (rewrite Esrc; apply Hrun; exact Hrlt).
     eapply sim_bind; [apply sim_mset_act_at|]. cbn beta. intros u0 rn0 i0 (-> & ->).
-    eapply sim_bind; [apply Lm_exit; [apply okmL_set_slot; exact Hok | apply kid_running_set_act; exact Hcur]|].
+    eapply sim_bind; [apply (Lm_exit (q:=q)); [apply okmL_set_slot; exact Hok | apply kid_running_set_act; exact Hcur]|].
     cbn beta. intros u1 rn1 i1 (Hok1 & Hp1 & Hr1 & Ha1 & Hk1 & E1).
     eapply sim_bind; [apply sim_mset_act_at|]. cbn beta. intros u2 rn2 i2 (-> & ->).
     eapply sim_bind; [apply sim_mrun_action; exact Hd|]. cbn beta. intros res rn3 i3 (-> & -> & ->).
     eapply sim_bind; [apply sim_mset_act_at|]. cbn beta. intros u4 rn4 i4 (-> & ->).
-    eapply sim_bind; [apply Lm_entry; [repeat apply okmL_set_slot; exact Hok1 | exact Hfuel]|].
+    eapply sim_bind; [apply (Lm_entry (q:=q)); [repeat apply okmL_set_slot; exact Hok1 | exact Hfuel]|].
     cbn beta. intros u5 rn5 i5 (Hok5 & Hp5 & Hr5 & Ha5 & Hkn5 & Hk5 & E5).
     eapply sim_bind; [apply sim_mset_act_at|]. cbn beta. intros u6 rn6 i6 (-> & ->).
     unfold on_state_entry_completed. rewrite core_no_state_completion, andb_false_r.
@@ -346,10 +392,10 @@ Qed.
 
 Definition row_ok (s:nat) (x:row) : Prop := core_row' x /\ (tgt_state (r_tgt x) <> None -> r_src x = s).
 
-Lemma Lm_row fuel r x ev rn : lvl rn -> 1 <= fuel -> row_ok (nth r (act rn) 0) x ->
+Lemma Lm_row {q} fuel r x ev rn : lvlq q rn -> 1 <= fuel -> row_ok (nth r (act rn) 0) x ->
   (tgt_state (r_tgt x) <> None -> r < length (act rn)) ->
   sim val (mexec_row cf contained mc children fuel r x ev) rn
-      (fun code rn' items => lvl rn' /\ processing rn' = processing rn /\ running rn' = running rn /\
+      (fun code rn' items => lvlq q rn' /\ processing rn' = processing rn /\ running rn' = running rn /\
          (o_taken (sp_rows pol mc r ev val [x] (abs rn)) = false -> act rn' = act rn) /\
          items = o_items (sp_rows pol mc r ev val [x] (abs rn)) /\ abs rn' = o_conf (sp_rows pol mc r ev val [x] (abs rn)) /\
          code = (if o_taken (sp_rows pol mc r ev val [x] (abs rn)) then 1 else 2) /\
@@ -373,7 +419,7 @@ Proof.
                            ret res
                        end
                      else ret HANDLED_GUARD_REJECT) rn
-              (fun code rn' items => lvl rn' /\ processing rn' = processing rn /\ running rn' = running rn /\
+              (fun code rn' items => lvlq q rn' /\ processing rn' = processing rn /\ running rn' = running rn /\
                  let o := (if r_guard x
                            then if memb (r_id x) val
                                 then (let '(i, c') := sp_take pol mc r x ev (abs rn) in Out true false (i ++ [Cb (KGuard true) [] (r_id x) ev false (c_act (abs rn))]) c')
@@ -382,7 +428,7 @@ Proof.
                  (o_taken o = false -> act rn' = act rn) /\
                  items ++ gi = o_items o /\ abs rn' = o_conf o /\ code = (if o_taken o then 1 else 2) /\ o_rejected o = negb (o_taken o))).
   { intros b gi Hb. destruct b.
-    - eapply sim_conseq; [apply Lm_take; auto|]. cbn beta. intros code rn' items (H1 & H2 & H3 & -> & E).
+    - eapply sim_conseq; [apply (Lm_take (q:=q)); auto|]. cbn beta. intros code rn' items (H1 & H2 & H3 & -> & E).
       split; [exact H1|]. split; [exact H2|]. split; [exact H3|].
       destruct (sp_take pol mc r x ev (abs rn)) as [i c'] eqn:T. inversion E; subst i c'.
       destruct (r_guard x).
@@ -414,10 +460,10 @@ Proof. repeat split; reflexivity. Qed.
 (* the accumulated code before a row is tried: nothing taken yet *)
 Definition acc_of (rj:bool) : nat := if rj then 2 else 0.
 
-Lemma Lm_rows_raw fuel r ev : forall rows rn rj0, lvl rn -> 1 <= fuel -> Forall (row_ok (nth r (act rn) 0)) rows ->
+Lemma Lm_rows_raw {q} fuel r ev : forall rows rn rj0, lvlq q rn -> 1 <= fuel -> Forall (row_ok (nth r (act rn) 0)) rows ->
   (r < length (act rn) \/ Forall (fun x => tgt_state (r_tgt x) = None) rows) ->
   sim val (mchain_raw cf contained mc children fuel r ev (acc_of rj0) rows) rn
-      (fun code rn' items => lvl rn' /\ processing rn' = processing rn /\ running rn' = running rn /\
+      (fun code rn' items => lvlq q rn' /\ processing rn' = processing rn /\ running rn' = running rn /\
          items = o_items (sp_rows pol mc r ev val rows (abs rn)) /\ abs rn' = o_conf (sp_rows pol mc r ev val rows (abs rn)) /\
          code_ok code (o_taken (sp_rows pol mc r ev val rows (abs rn))) (rj0 || o_rejected (sp_rows pol mc r ev val rows (abs rn)))).
 Proof.
@@ -427,7 +473,7 @@ Proof.
     assert (Hc : mp11_cont (acc_of rj0) = true) by (destruct rj0; reflexivity). rewrite Hc.
     assert (Hbx : tgt_state (r_tgt x) <> None -> r < length (act rn)).
     { intros Hn. destruct Hbnd as [L|F]; [exact L|]. inversion F; subst. contradiction. }
-    eapply sim_bind; [apply (Lm_row fuel r x ev rn Hl Hfuel Hx Hbx)|].
+    eapply sim_bind; [apply (Lm_row (q:=q) fuel r x ev rn Hl Hfuel Hx Hbx)|].
     cbn beta. intros res rn1 i1 (Hl1 & Hp1 & Hr1 & Hact & Ei & Ec & Eres & Erj).
     destruct (o_taken (sp_rows pol mc r ev val [x] (abs rn))) eqn:Tk.
     + (* taken: the loop ends at the next test *)
@@ -457,16 +503,16 @@ Proof.
   - destruct rj; intros ->; reflexivity.
 Qed.
 
-Lemma Lm_rows fuel r ev rows rn rj0 : lvl rn -> 1 <= fuel -> Forall (row_ok (nth r (act rn) 0)) rows ->
+Lemma Lm_rows {q} fuel r ev rows rn rj0 : lvlq q rn -> 1 <= fuel -> Forall (row_ok (nth r (act rn) 0)) rows ->
   (r < length (act rn) \/ Forall (fun x => tgt_state (r_tgt x) = None) rows) ->
   sim val (mchain cf contained mc children fuel r ev (acc_of rj0) rows) rn
-      (fun code rn' items => lvl rn' /\ processing rn' = processing rn /\ running rn' = running rn /\
+      (fun code rn' items => lvlq q rn' /\ processing rn' = processing rn /\ running rn' = running rn /\
          items = o_items (sp_rows pol mc r ev val rows (abs rn)) /\ abs rn' = o_conf (sp_rows pol mc r ev val rows (abs rn)) /\
          code_ok code (o_taken (sp_rows pol mc r ev val rows (abs rn))) (rj0 || o_rejected (sp_rows pol mc r ev val rows (abs rn)))).
 Proof.
   intros Hl Hfuel Hall Hbnd. unfold mchain. destruct rows as [|x t].
   - apply sim_ret. cbn. split; [exact Hl|]. repeat (split; [reflexivity|]). unfold code_ok, acc_of. rewrite orb_false_r. reflexivity.
-  - eapply sim_bind; [apply (Lm_rows_raw fuel r ev (x :: t) rn rj0 Hl Hfuel Hall Hbnd)|].
+  - eapply sim_bind; [apply (Lm_rows_raw (q:=q) fuel r ev (x :: t) rn rj0 Hl Hfuel Hall Hbnd)|].
     cbn beta. intros res rn1 i1 (H1 & H2 & H3 & H4 & H5 & H6). apply sim_ret. rewrite app_nil_l.
     split; [exact H1|]. split; [exact H2|]. split; [exact H3|]. split; [exact H4|]. split; [exact H5|]. apply code_ok_finish. exact H6.
 Qed.
@@ -520,9 +566,9 @@ Proof.
   - rewrite nth_upd_neq by congruence. exact Hs'.
 Qed.
 
-Lemma Lm_cell fuel r ev rn : lvl rn -> depth mc + 1 <= fuel -> e_ty ev <> EV_NONE -> r < length (act rn) ->
+Lemma Lm_cell {q} fuel r ev rn : lvlq q rn -> depth mc + 1 <= fuel -> e_ty ev <> EV_NONE -> r < length (act rn) ->
   sim val (mdispatch cf parents contained mc children fuel r (nth r (act rn) 0) ev) rn
-      (fun code rn' items => lvl rn' /\ processing rn' = processing rn /\ running rn' = running rn /\
+      (fun code rn' items => lvlq q rn' /\ processing rn' = processing rn /\ running rn' = running rn /\
          items = o_items (sp_region pol mc (sp_level_subs pol mc) ev val r (abs rn)) /\
          abs rn' = o_conf (sp_region pol mc (sp_level_subs pol mc) ev val r (abs rn)) /\
          code_ok code (o_taken (sp_region pol mc (sp_level_subs pol mc) ev val r (abs rn)))
@@ -534,13 +580,13 @@ Proof.
   unfold mdispatch. rewrite Etab.
   unfold sp_region. rewrite abs_act. fold s. rewrite level_subs_nth, abs_kid.
   (* the rows alone, in the three shapes the dispatcher gives them *)
-  assert (Rows : forall rn0, lvl rn0 -> nth r (act rn0) 0 = s -> r < length (act rn0) ->
+  assert (Rows : forall rn0, lvlq q rn0 -> nth r (act rn0) 0 = s -> r < length (act rn0) ->
             sim val (match sp_candidates mc s (e_ty ev) with
                      | [] => ret HANDLED_FALSE
                      | [x] => mexec_row cf contained mc children fuel r x ev
                      | _ => mchain cf contained mc children fuel r ev HANDLED_FALSE (sp_candidates mc s (e_ty ev))
                      end) rn0
-              (fun code rn' items => lvl rn' /\ processing rn' = processing rn0 /\ running rn' = running rn0 /\
+              (fun code rn' items => lvlq q rn' /\ processing rn' = processing rn0 /\ running rn' = running rn0 /\
                  items = o_items (sp_rows pol mc r ev val (sp_candidates mc s (e_ty ev)) (abs rn0)) /\
                  abs rn' = o_conf (sp_rows pol mc r ev val (sp_candidates mc s (e_ty ev)) (abs rn0)) /\
                  code_ok code (o_taken (sp_rows pol mc r ev val (sp_candidates mc s (e_ty ev)) (abs rn0)))
@@ -551,7 +597,7 @@ Proof.
     destruct (sp_candidates mc s (e_ty ev)) as [|x [|y t]] eqn:Ec.
     - apply sim_ret. cbn. split; [exact Hl0|]. repeat (split; [reflexivity|]). reflexivity.
     - inversion Hrows0 as [|? ? Hx _]; subst.
-      eapply sim_conseq; [apply (Lm_row fuel r x ev rn0 Hl0 Hf1 Hx (fun _ => Hlt0))|].
+      eapply sim_conseq; [apply (Lm_row (q:=q) fuel r x ev rn0 Hl0 Hf1 Hx (fun _ => Hlt0))|].
       cbn beta. intros code rn' items (H1 & H2 & H3 & _ & H4 & H5 & H6 & H7).
       split; [exact H1|]. split; [exact H2|]. split; [exact H3|]. split; [exact H4|]. split; [exact H5|].
       rewrite H7. subst code. unfold code_ok.
@@ -565,7 +611,7 @@ Proof.
     assert (Hkr : running kn = true).
     { specialize (Hrun r Hrlt). fold s in Hrun. unfold kid_running in Hrun. rewrite Hk in Hrun. exact Hrun. }
     assert (Fr : sim val (mforward contained children fuel s ev) rn
-              (fun code rn' items => lvl rn' /\ processing rn' = processing rn /\ running rn' = running rn /\ act rn' = act rn /\
+              (fun code rn' items => lvlq q rn' /\ processing rn' = processing rn /\ running rn' = running rn /\ act rn' = act rn /\
                  items = map (push_path s) (o_items (sp_level pol c ev val (abs kn))) /\
                  abs rn' = c_set_kid (abs rn) s (o_conf (sp_level pol c ev val (abs kn))) /\
                  code_ok code (o_taken (sp_level pol c ev val (abs kn))) (o_rejected (sp_level pol c ev val (abs kn))))).
@@ -578,14 +624,14 @@ Proof.
       split; [rewrite Ei; reflexivity|]. split; [rewrite abs_set_kid, Ec; reflexivity | exact Hcode]. }
     unfold needs_forward. rewrite Hco.
     (* the continuation after the submachine did not take a transition *)
-    assert (After : forall res rn1 rj1, lvl rn1 -> act rn1 = act rn -> res = acc_of rj1 ->
+    assert (After : forall res rn1 rj1, lvlq q rn1 -> act rn1 = act rn -> res = acc_of rj1 ->
               sim val (mchain cf contained mc children fuel r ev res (sp_candidates mc s (e_ty ev))) rn1
-                (fun code rn' items => lvl rn' /\ processing rn' = processing rn1 /\ running rn' = running rn1 /\
+                (fun code rn' items => lvlq q rn' /\ processing rn' = processing rn1 /\ running rn' = running rn1 /\
                    items = o_items (sp_rows pol mc r ev val (sp_candidates mc s (e_ty ev)) (abs rn1)) /\
                    abs rn' = o_conf (sp_rows pol mc r ev val (sp_candidates mc s (e_ty ev)) (abs rn1)) /\
                    code_ok code (o_taken (sp_rows pol mc r ev val (sp_candidates mc s (e_ty ev)) (abs rn1)))
                                 (rj1 || o_rejected (sp_rows pol mc r ev val (sp_candidates mc s (e_ty ev)) (abs rn1))))).
-    { intros res rn1 rj1 Hl1 Ha1 ->. apply Lm_rows; [exact Hl1 | exact Hf1 | rewrite Ha1; exact Hrows | left; rewrite Ha1; exact Hrlt]. }
+    { intros res rn1 rj1 Hl1 Ha1 ->. apply (Lm_rows (q:=q)); [exact Hl1 | exact Hf1 | rewrite Ha1; exact Hrows | left; rewrite Ha1; exact Hrlt]. }
     assert (Acc : forall res rj, code_ok res false rj -> res = acc_of rj).
     { intros res rj H. unfold code_ok in H. exact H. }
     destruct (c_fct cf) eqn:Efct.
@@ -633,7 +679,7 @@ Proof.
   - (* a simple state *)
     unfold needs_forward. rewrite (mchild_none s Es).
     destruct (c_fct cf) eqn:Efct.
-    + eapply sim_conseq; [apply (Lm_rows fuel r ev (sp_candidates mc s (e_ty ev)) rn false Hl Hf1 Hrows (or_introl Hrlt))|].
+    + eapply sim_conseq; [apply (Lm_rows (q:=q) fuel r ev (sp_candidates mc s (e_ty ev)) rn false Hl Hf1 Hrows (or_introl Hrlt))|].
       cbn beta. intros code rn' items H. exact H.
     + eapply sim_conseq; [apply (Rows rn Hl eq_refl Hrlt)|]. cbn beta. intros code rn' items H. exact H.
 Qed.
@@ -642,10 +688,10 @@ Qed.
 (* ---- every region once, in order ---- *)
 Notation reg_step := (reg_step mc pol val).
 
-Lemma Lm_regions fuel ev : depth mc + 1 <= fuel -> e_ty ev <> EV_NONE ->
-  forall n r acc oacc rn, lvl rn -> r + n = m_nreg mc -> abs rn = o_conf oacc -> code_ok acc (o_taken oacc) (o_rejected oacc) ->
+Lemma Lm_regions {q} fuel ev : depth mc + 1 <= fuel -> e_ty ev <> EV_NONE ->
+  forall n r acc oacc rn, lvlq q rn -> r + n = m_nreg mc -> abs rn = o_conf oacc -> code_ok acc (o_taken oacc) (o_rejected oacc) ->
   sim val (mregions_loop cf parents contained mc children fuel ev n r acc) rn
-      (fun code rn' items => lvl rn' /\ processing rn' = processing rn /\ running rn' = running rn /\
+      (fun code rn' items => lvlq q rn' /\ processing rn' = processing rn /\ running rn' = running rn /\
          items ++ o_items oacc = o_items (fold_left (reg_step ev) (seqn r n) oacc) /\
          abs rn' = o_conf (fold_left (reg_step ev) (seqn r n) oacc) /\
          code_ok code (o_taken (fold_left (reg_step ev) (seqn r n) oacc)) (o_rejected (fold_left (reg_step ev) (seqn r n) oacc))).
@@ -655,7 +701,7 @@ Proof.
   - eapply sim_bind; [apply (sim_get val rn (fun a rn1 i1 => a = rn /\ rn1 = rn /\ i1 = [])); auto|].
     cbn beta. intros a rn0 i0 (-> & -> & ->).
     assert (Hrlt : r < length (act rn)) by (destruct Hl as ((_ & La & _) & _); lia).
-    eapply sim_bind; [apply (Lm_cell fuel r ev rn Hl Hfuel Hev Hrlt)|].
+    eapply sim_bind; [apply (Lm_cell (q:=q) fuel r ev rn Hl Hfuel Hev Hrlt)|].
     cbn beta. intros res rn1 i1 (Hl1 & Hp1 & Hr1 & Ei1 & Ec1 & Hc1).
     eapply sim_conseq.
     { apply (IH (S r) (bit_or acc res) (reg_step ev oacc r) rn1 Hl1); [lia| |].
@@ -682,9 +728,9 @@ Lemma mtried_vals : tab1 mp11_internal_tried 0 = true /\ tab1 mp11_internal_trie
 Proof. repeat split; reflexivity. Qed.
 
 (* ---- a whole level ---- *)
-Lemma Lm_level fuel ev info rn : lvl rn -> depth mc + 1 <= fuel -> e_ty ev <> EV_NONE ->
+Lemma Lm_level {q} fuel ev info rn : lvlq q rn -> depth mc + 1 <= fuel -> e_ty ev <> EV_NONE ->
   sim val (mdo_process_event cf parents contained mc children fuel ev info) rn
-      (fun code rn' items => lvl rn' /\ processing rn' = processing rn /\ running rn' = running rn /\
+      (fun code rn' items => lvlq q rn' /\ processing rn' = processing rn /\ running rn' = running rn /\
          (let o := sp_level pol mc ev val (abs rn) in
           let nt := negb (Nat.eqb info INFO_SUBMACHINE) && negb (o_taken o || o_rejected o) in
           items = (if nt then rev (map (fun s => Cb KNoTrans [] s ev false (c_act (o_conf o))) (c_act (o_conf o))) else []) ++ o_items o /\
@@ -693,7 +739,7 @@ Proof.
   intros Hl Hfuel Hev. assert (Hf1 : 1 <= fuel) by lia. unfold mdo_process_event.
   rewrite (sp_level_unfold mc Hcore pol val), (sp_regions_fold mc pol val).
   eapply sim_bind.
-  { apply (Lm_regions fuel ev Hfuel Hev (m_nreg mc) 0 HANDLED_FALSE (Out false false [] (abs rn)) rn Hl); [reflexivity | reflexivity|].
+  { apply (Lm_regions (q:=q) fuel ev Hfuel Hev (m_nreg mc) 0 HANDLED_FALSE (Out false false [] (abs rn)) rn Hl); [reflexivity | reflexivity|].
     unfold code_ok. reflexivity. }
   cbn beta. intros h rn1 i1 (Hl1 & Hp1 & Hr1 & Ei1 & Ec1 & Hc1). rewrite app_nil_r in Ei1.
   set (o := fold_left (reg_step ev) (seqn 0 (m_nreg mc)) (Out false false [] (abs rn))) in *.
@@ -710,7 +756,7 @@ Proof.
     destruct mc as [states inits rows irows hist]. cbn in Hcore. destruct Hcore as (_ & Hi & _). cbn [m_irows].
     eapply Forall_impl; [|exact Hi]. intros x Hx. split; [apply core_irow_parts; exact Hx|].
     destruct Hx as (_ & _ & _ & Ht). rewrite Ht. cbn. congruence. }
-  eapply sim_bind with (P := fun h2 rn2 i2 => lvl rn2 /\ processing rn2 = processing rn /\ running rn2 = running rn /\
+  eapply sim_bind with (P := fun h2 rn2 i2 => lvlq q rn2 /\ processing rn2 = processing rn /\ running rn2 = running rn /\
       let o' := (if o_taken o then o
                  else (let o2 := sp_rows pol mc 0 ev val irs (o_conf o) in
                        Out (o_taken o2) (o_rejected o || o_rejected o2) (o_items o2 ++ o_items o) (o_conf o2))) in
@@ -723,7 +769,7 @@ Proof.
     - assert (Ei : tab1 mp11_internal_tried h = true).
       { destruct mtried_vals as (T0 & _ & T2 & _). unfold code_ok in Hc1. destruct (o_rejected o); subst h; auto. }
       rewrite Ei.
-      eapply sim_bind with (P := fun ri rn3 i3 => lvl rn3 /\ processing rn3 = processing rn1 /\ running rn3 = running rn1 /\
+      eapply sim_bind with (P := fun ri rn3 i3 => lvlq q rn3 /\ processing rn3 = processing rn1 /\ running rn3 = running rn1 /\
           i3 = o_items (sp_rows pol mc 0 ev val irs (abs rn1)) /\ abs rn3 = o_conf (sp_rows pol mc 0 ev val irs (abs rn1)) /\
           code_ok ri (o_taken (sp_rows pol mc 0 ev val irs (abs rn1))) (o_rejected (sp_rows pol mc 0 ev val irs (abs rn1)))).
       { unfold minternal_dispatch. rewrite Hirs.
@@ -733,7 +779,7 @@ Proof.
         - destruct (c_fct cf); [exact HL|].
           pose proof (Hgood (nth 0 (act rn1) 0)) as Hg. inversion Hg as [|? ? Hx _]; subst.
           assert (Hxi : tgt_state (r_tgt x) <> None -> 0 < length (act rn1)) by (inversion Hint; subst; intros; contradiction).
-          eapply sim_conseq; [apply (Lm_row fuel 0 x ev rn1 Hl1 Hf1 Hx Hxi)|].
+          eapply sim_conseq; [apply (Lm_row (q:=q) fuel 0 x ev rn1 Hl1 Hf1 Hx Hxi)|].
           cbn beta. intros code rn' items (H1 & H2 & H3 & _ & H4 & H5 & H6 & H7).
           split; [exact H1|]. split; [exact H2|]. split; [exact H3|]. split; [exact H4|]. split; [exact H5|].
           rewrite H7. subst code. unfold code_ok.
@@ -809,14 +855,14 @@ Proof.
   cbn beta. intros u1 rn2 i2 (-> & ->).
   set (rn0 := set_processing (set_curseq rn (wrap_mp11 (curseq rn + 1))) true).
   assert (Hl0 : lvl rn0).
-  { split; [apply okmL_set_processing, okmL_set_curseq; exact HokL|].
+  { split; [apply okmL_set_processing, (okmL_set_curseq (c:=None)); exact HokL|].
     intros r Hr. unfold rn0 in *. destruct rn; exact (Har r Hr). }
   eapply sim_bind; [apply sim_catch; apply (Lm_level f ev info rn0 Hl0); [lia | exact Hev]|].
   cbn beta. intros code rn3 i3 (Hl3 & Hp3 & Hr3 & Hres).
   replace (abs rn0) with (abs rn) in Hres by (unfold rn0; rewrite abs_set_processing, abs_set_curseq; reflexivity).
   eapply sim_bind; [apply (sim_modify val _ rn3 (fun _ rn4 i4 => rn4 = set_processing rn3 false /\ i4 = [])); auto|].
   cbn beta. intros u4 rn4 i4 (-> & ->).
-  assert (Hq : msgq (set_processing rn3 false) = []) by (destruct Hl3 as ((Hq & _) & _); destruct rn3; exact Hq).
+  assert (Hq : msgq (set_processing rn3 false) = []) by (destruct Hl3 as (((Hq & _) & _) & _); destruct rn3; exact Hq).
   eapply sim_bind with (P := fun _ rn5 i5 => rn5 = set_processing rn3 false /\ i5 = []).
   { eapply sim_bind; [apply sim_pool_empty; exact Hq|]. cbn beta. intros u5 rn5 i5 (-> & ->). apply sim_ret. auto. }
   cbn beta. intros u5 rn5 i5 (-> & ->). apply sim_ret. rewrite !app_nil_l, !app_nil_r.
@@ -827,16 +873,183 @@ Proof.
   - rewrite abs_set_processing. exact Hres.
 Qed.
 
+Lemma sp_process_unfold_rootm ev c :
+  let o := sp_level pol mc ev val c in
+  sp_process pol mc ev val c =
+    Out (o_taken o) (o_rejected o)
+        ((if negb (o_taken o || o_rejected o) then rev (map (fun s => Cb KNoTrans [] s ev false (c_act (o_conf o))) (c_act (o_conf o))) else []) ++ o_items o)
+        (o_conf o).
+Proof.
+  cbn zeta. unfold sp_process. destruct (sp_level pol mc ev val c) as [t rj i c']. cbn [o_taken o_rejected o_items o_conf].
+  destruct t, rj; reflexivity.
+Qed.
+
+(* a stored event dispatched from the pool is one complete step; what else the pool holds and the counter stay *)
+Lemma Lm_pei_pool {l} fuel ev rn : okmLq (l, None) mc rn -> processing rn = false -> act_run rn -> running rn = true ->
+  depth mc + 2 <= fuel -> e_ty ev <> EV_NONE ->
+  sim val (mpei cf parents contained mc children fuel ev INFO_POOL) rn
+      (fun code rn' items => okmLq (l, Some (curseq rn)) mc rn' /\ act_run rn' /\ processing rn' = false /\ running rn' = true /\
+         (let o := sp_process pol mc ev val (abs rn) in
+          items = o_items o /\ abs rn' = o_conf o /\ code_ok code (o_taken o) (o_rejected o))).
+Proof.
+  intros HokL Hproc Har Hrunning Hfuel Hev.
+  destruct fuel as [|f]; [lia|]. cbn [mpei]. unfold mpei_body.
+  eapply sim_bind; [apply (sim_get val rn (fun a rn1 i1 => a = rn /\ rn1 = rn /\ i1 = [])); auto|].
+  cbn beta. intros a rn0 i0 (-> & -> & ->). rewrite mblocked_false.
+  change (Nat.eqb INFO_POOL INFO_POOL) with true. cbn [negb andb when].
+  eapply sim_bind; [apply (sim_ret val tt rn (fun _ rn1 i1 => rn1 = rn /\ i1 = [])); auto|].
+  cbn beta. intros u0 rn1 i1 (-> & ->).
+  eapply sim_bind; [apply (sim_modify val _ rn (fun _ rn2 i2 => rn2 = set_processing rn true /\ i2 = [])); auto|].
+  cbn beta. intros u1 rn2 i2 (-> & ->).
+  assert (Hl0 : lvlq (l, Some (curseq rn)) (set_processing rn true)).
+  { split; [apply okmL_set_processing, okmL_know; exact HokL|].
+    intros r Hr. destruct rn; exact (Har r Hr). }
+  eapply sim_bind; [apply sim_catch; apply (Lm_level (q:=(l, Some (curseq rn))) f ev INFO_POOL _ Hl0); [lia | exact Hev]|].
+  cbn beta. intros code rn3 i3 (Hl3 & Hp3 & Hr3 & Hres). rewrite abs_set_processing in Hres.
+  eapply sim_bind; [apply (sim_modify val _ rn3 (fun _ rn4 i4 => rn4 = set_processing rn3 false /\ i4 = [])); auto|].
+  cbn beta. intros u4 rn4 i4 (-> & ->).
+  eapply sim_bind; [apply (sim_ret val tt (set_processing rn3 false) (fun _ rn5 i5 => rn5 = set_processing rn3 false /\ i5 = [])); auto|].
+  cbn beta. intros u5 rn5 i5 (-> & ->). apply sim_ret. rewrite !app_nil_l, !app_nil_r.
+  destruct Hl3 as (HokL3 & Har3).
+  split; [apply okmL_set_processing; exact HokL3|].
+  split; [intros r Hr; destruct rn3; exact (Har3 r Hr)|].
+  split; [destruct rn3; reflexivity|].
+  split; [destruct rn3, rn; cbn in *; congruence|].
+  rewrite abs_set_processing. rewrite sp_process_unfold_rootm. cbn zeta. cbn [o_items o_conf o_taken o_rejected].
+  cbn zeta in Hres. change (Nat.eqb INFO_POOL INFO_SUBMACHINE) with false in Hres. cbn [negb andb] in Hres. exact Hres.
+Qed.
+
+(* the pool processed to the end: every stored event is one complete step, oldest first *)
+Lemma Lm_pool fuel' s0 : depth mc + 2 <= fuel' ->
+  forall evs fl rn p, okmLq (map (mkqm s0) evs, None) mc rn -> processing rn = false -> act_run rn -> running rn = true ->
+    2 * length evs + 1 <= fl -> apart s0 (curseq rn) (length evs) -> Forall (fun e => e_ty e <> EV_NONE) evs ->
+    sim val (pool_loop cf parents contained mc children (mpei cf parents contained mc children fuel') fl 0 p 0) rn
+        (fun _ rn' items => okm mc rn' /\ running rn' = true /\ (items, abs rn') = sp_drain pol mc val evs (abs rn)).
+Proof.
+  intros Hfuel. induction evs as [|e t IH]; intros fl rn p Hok Hp Har Hrun Hfl Hap Hall.
+  - destruct fl as [|f]; [cbn in Hfl; lia|]. cbn [pool_loop].
+    eapply sim_bind; [apply (sim_get val rn (fun a rn1 i1 => a = rn /\ rn1 = rn /\ i1 = [])); auto|].
+    cbn beta. intros a rn1 i1 (-> & -> & ->). rewrite (okmL_msgq _ _ Hok). cbn [fst map nth_error].
+    apply sim_ret. split; [|split; [exact Hrun | reflexivity]].
+    apply okm_unfold. split; [exact Hok|]. split; [exact Hp | intros _; exact Har].
+  - destruct fl as [|fl1]; [cbn in Hfl; lia|]. cbn [length] in Hfl, Hap.
+    inversion Hall as [|e' t' He Ht]; subst e' t'.
+    cbn [pool_loop].
+    eapply sim_bind; [apply (sim_get val rn (fun a rn1 i1 => a = rn /\ rn1 = rn /\ i1 = [])); auto|].
+    cbn beta. intros a rn1 i1 (-> & -> & ->). rewrite (okmL_msgq _ _ Hok). cbn [fst map nth_error].
+    change (mkqm s0 e) with (QEv e 0 s0 false). cbn [is_marked]. cbv iota.
+    rewrite (apart_now _ _ _ Hap), defers_false. cbn [orb].
+    unfold mark_at. cbn [nth_error upd].
+    set (q1 := QEv e 0 s0 true :: map (mkqm s0) t).
+    eapply sim_bind; [apply (sim_put val (set_msgq rn q1) rn (fun _ rn1 i1 => rn1 = set_msgq rn q1 /\ i1 = [])); auto|].
+    cbn beta. intros u1 rn1 i1 (-> & ->).
+    eapply sim_bind.
+    { apply (Lm_pei_pool (l:=q1) fuel' e (set_msgq rn q1)); [eapply okmL_set_msgq; exact Hok | destruct rn; exact Hp | | destruct rn; exact Hrun | exact Hfuel | exact He].
+      intros r Hr. destruct rn; exact (Har r Hr). }
+    cbn beta. intros code rn2 i2 (Hok2 & Har2 & Hp2 & Hr2 & Hi2 & Ha2 & Hc2).
+    rewrite abs_set_msgq in Hi2, Ha2, Hc2.
+    destruct (code_not_deferred _ _ _ Hc2) as (Ed & Eb). rewrite Ed, Eb. cbn [negb andb when].
+    replace (Nat.eqb (S p) 0) with false by reflexivity. cbn [andb].
+    eapply sim_bind; [apply (sim_modify val _ rn2 (fun _ rn3 i3 => rn3 = set_curseq rn2 (wrap_mp11 (curseq rn2 + 1)) /\ i3 = [])); auto|].
+    cbn beta. intros u3 rn3 i3 (-> & ->).
+    (* the marked cell is removed *)
+    destruct fl1 as [|f]; [lia|]. cbn [pool_loop].
+    eapply sim_bind; [apply (sim_get val _ (fun a rn4 i4 => a = set_curseq rn2 (wrap_mp11 (curseq rn2 + 1)) /\ rn4 = a /\ i4 = [])); auto|].
+    cbn beta. intros a rn4 i4 (-> & -> & ->).
+    assert (Hq2 : msgq (set_curseq rn2 (wrap_mp11 (curseq rn2 + 1))) = q1) by (pose proof (okmL_msgq _ _ Hok2) as Hm; cbn [fst] in Hm; rewrite <- Hm; destruct rn2; reflexivity).
+    rewrite Hq2. unfold q1 at 1. cbn [nth_error is_marked].
+    unfold q1. cbn [remove_at].
+    set (rn5 := set_msgq (set_curseq rn2 (wrap_mp11 (curseq rn2 + 1))) (map (mkqm s0) t)).
+    eapply sim_bind; [apply (sim_put val rn5 _ (fun _ rn6 i6 => rn6 = rn5 /\ i6 = [])); auto|].
+    cbn beta. intros u6 rn6 i6 (-> & ->).
+    assert (Hc : curseq rn2 = curseq rn) by (rewrite (okmL_seq _ _ Hok2); destruct rn; reflexivity).
+    eapply sim_conseq.
+    { apply (IH f rn5 (S p)).
+      - unfold rn5. eapply okmL_set_msgq. eapply okmL_set_curseq. exact Hok2.
+      - unfold rn5. destruct rn2; exact Hp2.
+      - intros r Hr. unfold rn5 in *. destruct rn2; exact (Har2 r Hr).
+      - unfold rn5. destruct rn2; exact Hr2.
+      - lia.
+      - replace (curseq rn5) with (wrap_mp11 (curseq rn + 1)) by (unfold rn5; rewrite <- Hc; destruct rn2; reflexivity).
+        apply apart_next. exact Hap.
+      - exact Ht. }
+    cbn beta. intros n7 rn7 i7 (Hok7 & Hr7 & E7). split; [exact Hok7|]. split; [exact Hr7|].
+    cbn [sp_drain]. replace (abs rn5) with (abs rn2) in E7 by (unfold rn5; rewrite abs_set_msgq, abs_set_curseq; reflexivity).
+    rewrite Ha2 in E7. rewrite <- E7. rewrite !app_nil_r. rewrite Hi2. reflexivity.
+Qed.
+
+Lemma Lm_process_pool fuel' s0 evs fl rn : depth mc + 2 <= fuel' ->
+  okmLq (map (mkqm s0) evs, None) mc rn -> processing rn = false -> act_run rn -> running rn = true ->
+  2 * length evs + 1 <= fl -> apart s0 (curseq rn) (length evs) -> Forall (fun e => e_ty e <> EV_NONE) evs ->
+  sim val (process_event_pool cf parents contained mc children (mpei cf parents contained mc children fuel') fl 0) rn
+      (fun _ rn' items => okm mc rn' /\ running rn' = true /\ (items, abs rn') = sp_drain pol mc val evs (abs rn)).
+Proof.
+  intros Hfuel Hok Hp Har Hrun Hfl Hap Hall. unfold process_event_pool.
+  eapply sim_bind; [apply (sim_get val rn (fun a rn1 i1 => a = rn /\ rn1 = rn /\ i1 = [])); auto|].
+  cbn beta. intros a rn1 i1 (-> & -> & ->). pose proof (okmL_msgq _ _ Hok) as Hq. cbn [fst] in Hq.
+  destruct evs as [|e t].
+  - rewrite Hq. cbn [map]. apply sim_ret. split; [|split; [exact Hrun | reflexivity]].
+    apply okm_unfold. split; [exact Hok|]. split; [exact Hp | intros _; exact Har].
+  - rewrite Hq. cbn [map]. rewrite Hp.
+    eapply sim_conseq; [apply (Lm_pool fuel' s0 Hfuel (e :: t) fl rn 0 Hok Hp Har Hrun Hfl Hap Hall)|]. cbn beta. intros n rn' i H. rewrite app_nil_r. exact H.
+Qed.
+
+(* process_event from outside while events are stored: the event's own step, then every stored event *)
+Lemma Lm_pei_direct_q s0 evs fuel ev rn :
+  okmLq (map (mkqm s0) evs, None) mc rn -> processing rn = false -> act_run rn -> running rn = true ->
+  depth mc + 3 <= fuel -> 2 * length evs + 2 <= fuel -> e_ty ev <> EV_NONE -> Forall (fun e => e_ty e <> EV_NONE) evs ->
+  apart s0 (wrap_mp11 (curseq rn + 1)) (length evs) ->
+  sim val (mpei cf parents contained mc children fuel ev INFO_DIRECT) rn
+      (fun code rn' items => okm mc rn' /\ running rn' = true /\
+         (let o := sp_process pol mc ev val (abs rn) in
+          let '(i, c') := sp_drain pol mc val evs (o_conf o) in
+          items = i ++ o_items o /\ abs rn' = c' /\ code_ok code (o_taken o) (o_rejected o))).
+Proof.
+  intros HokL Hproc Har Hrunning Hfuel Hfl Hev Hall Hap.
+  destruct fuel as [|f]; [lia|]. cbn [mpei]. unfold mpei_body.
+  eapply sim_bind; [apply (sim_get val rn (fun a rn1 i1 => a = rn /\ rn1 = rn /\ i1 = [])); auto|].
+  cbn beta. intros a rn0 i0 (-> & -> & ->). rewrite mblocked_false, Hproc, defers_false.
+  change (Nat.eqb INFO_DIRECT INFO_POOL) with false. cbn [negb orb andb]. rewrite andb_false_r. cbn [when].
+  set (c1 := wrap_mp11 (curseq rn + 1)) in *.
+  eapply sim_bind; [apply (sim_modify val _ rn (fun _ rn1 i1 => rn1 = set_curseq rn c1 /\ i1 = [])); auto|].
+  cbn beta. intros u0 rn1 i1 (-> & ->).
+  eapply sim_bind; [apply (sim_modify val _ _ (fun _ rn2 i2 => rn2 = set_processing (set_curseq rn c1) true /\ i2 = [])); auto|].
+  cbn beta. intros u1 rn2 i2 (-> & ->).
+  set (l := map (mkqm s0) evs) in *.
+  assert (Hl0 : lvlq (l, Some c1) (set_processing (set_curseq rn c1) true)).
+  { split; [apply okmL_set_processing; eapply okmL_set_curseq_to; exact HokL|].
+    intros r Hr. destruct rn; exact (Har r Hr). }
+  eapply sim_bind; [apply sim_catch; apply (Lm_level (q:=(l, Some c1)) f ev INFO_DIRECT _ Hl0); [lia | exact Hev]|].
+  cbn beta. intros code rn3 i3 (Hl3 & Hp3 & Hr3 & Hres).
+  rewrite abs_set_processing, abs_set_curseq in Hres.
+  eapply sim_bind; [apply (sim_modify val _ rn3 (fun _ rn4 i4 => rn4 = set_processing rn3 false /\ i4 = [])); auto|].
+  cbn beta. intros u4 rn4 i4 (-> & ->).
+  destruct Hl3 as (HokL3 & Har3).
+  eapply sim_bind with (P := fun _ rn5 i5 => okm mc rn5 /\ running rn5 = true /\ (i5, abs rn5) = sp_drain pol mc val evs (abs rn3)).
+  { eapply sim_bind.
+    { apply (Lm_process_pool f s0 evs f (set_processing rn3 false)); [lia | apply okmL_set_processing; eapply okmL_forget; exact HokL3
+        | destruct rn3; reflexivity | intros r Hr; destruct rn3; exact (Har3 r Hr) | destruct rn3, rn; cbn in *; congruence | lia | | exact Hall].
+      replace (curseq (set_processing rn3 false)) with c1 by (rewrite <- (okmL_seq _ _ HokL3); destruct rn3; reflexivity). exact Hap. }
+    cbn beta. intros n5 rn5 i5 (H1 & H2 & H3). apply sim_ret. rewrite app_nil_l. rewrite abs_set_processing in H3. auto. }
+  cbn beta. intros u5 rn5 i5 (Hok5 & Hr5 & E5). apply sim_ret. rewrite !app_nil_l, !app_nil_r.
+  split; [exact Hok5|]. split; [exact Hr5|].
+  rewrite sp_process_unfold_rootm. cbn zeta. cbn [o_conf o_items o_taken o_rejected].
+  cbn zeta in Hres. change (Nat.eqb INFO_DIRECT INFO_SUBMACHINE) with false in Hres. cbn [negb andb] in Hres.
+  destruct Hres as (H1 & H2 & H3). rewrite H1. rewrite <- H2.
+  destruct (sp_drain pol mc val evs (abs rn3)) as [i c'] eqn:Ed. inversion E5; subst i5 c'.
+  split; [reflexivity|]. split; [reflexivity | exact H3].
+Qed.
+
 (* ---- leaving and entering the whole level ---- *)
-Lemma Lm_exit_states fuel ev : forall l rn items0, okmL mc rn -> (forall s, In s l -> kid_running rn s) ->
+Lemma Lm_exit_states {q} fuel ev : forall l rn items0, okmLq q mc rn -> (forall s, In s l -> kid_running rn s) ->
   sim val (mexit_states cf contained mc children fuel ev l) rn
-      (fun _ rn' items => okmL mc rn' /\ processing rn' = processing rn /\ running rn' = running rn /\ act rn' = act rn /\
+      (fun _ rn' items => okmLq q mc rn' /\ processing rn' = processing rn /\ running rn' = running rn /\ act rn' = act rn /\
          (forall s', kid_running rn s' -> kid_running rn' s') /\
          (items ++ items0, abs rn') = fold_left (fun acc s => sp_exit_state (sp_exit_subs mc) ev s acc) l (items0, abs rn)).
 Proof.
   induction l as [|s t IH]; intros rn items0 Hok Hrun; cbn [mexit_states fold_left].
   - apply sim_ret. split; [exact Hok|]. auto.
-  - eapply sim_bind; [apply (Lm_exit fuel s ev rn Hok); apply Hrun; left; reflexivity|].
+  - eapply sim_bind; [apply (Lm_exit (q:=q) fuel s ev rn Hok); apply Hrun; left; reflexivity|].
     cbn beta. intros u rn1 i1 (Hok1 & Hp1 & Hr1 & Ha1 & Hk1 & E1).
     eapply sim_conseq; [apply (IH rn1 (i1 ++ items0) Hok1); intros s' Hs'; apply Hk1; apply Hrun; right; exact Hs'|].
     cbn beta. intros u2 rn2 i2 (Hok2 & Hp2 & Hr2 & Ha2 & Hk2 & E2).
@@ -845,15 +1058,15 @@ Proof.
     rewrite (sp_exit_state_acc (sp_exit_subs mc) ev s items0 (abs rn)). rewrite <- E1. reflexivity.
 Qed.
 
-Lemma Lm_enter_states fuel ev : 1 <= fuel -> forall l rid rn items0, okmL mc rn ->
+Lemma Lm_enter_states {q} fuel ev : 1 <= fuel -> forall l rid rn items0, okmLq q mc rn ->
   sim val (enter_states cf contained mc children fuel ev l rid) rn
-      (fun _ rn' items => okmL mc rn' /\ processing rn' = processing rn /\ running rn' = running rn /\ act rn' = act rn /\
+      (fun _ rn' items => okmLq q mc rn' /\ processing rn' = processing rn /\ running rn' = running rn /\ act rn' = act rn /\
          (forall s, In s l -> kid_running rn' s) /\ (forall s', kid_running rn s' -> kid_running rn' s') /\
          (items ++ items0, abs rn') = fold_left (fun acc s => sp_enter_state (sp_enter_subs mc) ev s acc) l (items0, abs rn)).
 Proof.
   intros Hf. induction l as [|s t IH]; intros rid rn items0 Hok; cbn [enter_states fold_left].
   - apply sim_ret. split; [exact Hok|]. repeat (split; [reflexivity|]). split; [intros s []|]. auto.
-  - eapply sim_bind; [apply (Lm_entry false fuel s ev rn Hok Hf)|].
+  - eapply sim_bind; [apply (Lm_entry (q:=q) false fuel s ev rn Hok Hf)|].
     cbn beta. intros u rn1 i1 (Hok1 & Hp1 & Hr1 & Ha1 & Hks & Hk1 & E1).
     unfold on_state_entry_completed. rewrite core_no_state_completion, andb_false_r.
     eapply sim_bind; [apply (sim_ret val tt rn1 (fun _ rn2 i2 => rn2 = rn1 /\ i2 = [])); auto|].
@@ -973,7 +1186,7 @@ Proof.
     split; [|split; [destruct (m_hist mc); destruct kn; reflexivity | split; [reflexivity | exact E]]].
     apply okm_unfold. destruct HokL as (Hq & La & Lh & Hk).
     destruct (m_hist mc); (split; [|split; [destruct kn; exact Hp | destruct kn; exact Har]]);
-      unfold okmL; destruct kn; cbn in *; auto.
+      unfold okmL, okmLq; destruct kn; cbn in *; auto.
   - intros ev kn Hok. unfold mon_entry_pre, preprocess_entry. apply sim_modify. auto.
   - (* entering *)
     intros fuel ev kn Hok Hf. apply okm_unfold in Hok. destruct Hok as (HokL & Hp & Har).
@@ -981,10 +1194,10 @@ Proof.
     unfold mon_entry_post.
     set (rnA := set_act kn0 (sp_hist_entry mc (abs kn) (e_ty ev))).
     eapply sim_bind with (P := fun _ rn1 i1 => i1 = [] /\ okmL mc rn1 /\ abs rn1 = abs rnA /\ processing rn1 = true /\ running rn1 = true).
-    { unfold history_set_ids, sp_hist_entry in *. destruct HokL as (Hq & La & Lh & Hk).
+    { unfold history_set_ids, sp_hist_entry in *. destruct HokL as ((Hq & _) & La & Lh & Hk). cbn [fst] in Hq.
       assert (Li : length (m_inits mc) = m_nreg mc) by reflexivity.
       destruct (m_hist mc) as [| |evs]; [| |destruct (memb (e_ty ev) evs)]; apply sim_modify; (split; [reflexivity|]);
-        unfold kn0, rnA, okmL; rewrite ?abs_hist; destruct kn; cbn in *; repeat split; auto. }
+        unfold kn0, rnA, okmL, okmLq, seq_is; rewrite ?abs_hist; destruct kn; cbn in *; repeat split; auto. }
     cbn beta. intros u rn1 i1 (-> & Hok1 & Ea & Hp1 & Hr1).
     eapply sim_bind; [apply (sim_get val rn1 (fun a rn2 i2 => a = rn1 /\ rn2 = rn1 /\ i2 = [])); auto|].
     cbn beta. intros a rn2 i2 (-> & -> & ->).
@@ -993,7 +1206,7 @@ Proof.
     unfold postprocess_entry.
     eapply sim_bind; [apply (sim_modify val _ rn3 (fun _ rn4 i4 => rn4 = set_processing rn3 false /\ i4 = [])); auto|].
     cbn beta. intros u4 rn4 i4 (-> & ->).
-    assert (Hq : msgq (set_processing rn3 false) = []) by (destruct Hok3 as (Hq & _); destruct rn3; exact Hq).
+    assert (Hq : msgq (set_processing rn3 false) = []) by (destruct Hok3 as ((Hq & _) & _); destruct rn3; exact Hq).
     eapply sim_bind; [eapply sim_pool_empty; eauto|]. cbn beta. intros u5 rn5 i5 (-> & ->).
     apply sim_ret. rewrite !app_nil_l, !app_nil_r. split; [|split].
     + apply okm_unfold. split; [apply okmL_set_processing; exact Hok3|]. split; [destruct rn3; reflexivity|].
@@ -1087,5 +1300,122 @@ Proof.
     split; [apply okmL_set_running; exact A|]. split; [destruct rn3; exact B|]. destruct rn3; cbn. discriminate.
   - unfold sp_stop. rewrite <- E1. rewrite !app_nil_l. cbn [app]. rewrite ?app_nil_r. rewrite abs_set_running, abs_act, E3. reflexivity.
 Qed.
+
+(* ---- events stored from outside (enqueue_event) on the outermost machine ---- *)
+(* between operations: the pool holds the stored occurrences, oldest first, each with the sequence value just behind
+   the counter; nothing is being processed *)
+Definition pool_of (rn:rnode) (pend:list evt) : list qitem := map (mkqm (wrap_mp11 (curseq rn - 1))) pend.
+Definition quietm (pend:list evt) (mc:machine) (rn:rnode) : Prop :=
+  okmLq (pool_of rn pend, None) mc rn /\ processing rn = false /\ (running rn = true -> act_run rn).
+Lemma quietm_nil mc rn : okm mc rn -> quietm [] mc rn.
+Proof. intros H. apply okm_unfold in H. exact H. Qed.
+
+Theorem mp11_process_event_q : forall mc, core mc -> forall pend fuel ev rn,
+  quietm pend mc rn -> running rn = true -> depth mc + 3 <= fuel -> 2 * length pend + 2 <= fuel -> (Z.of_nat fuel < MW)%Z ->
+  e_ty ev <> EV_NONE -> Forall (fun e => e_ty e <> EV_NONE) pend ->
+  sim val (co_pei (build cf parents false mc) fuel ev INFO_DIRECT) rn
+      (fun code rn' items => okm mc rn' /\ running rn' = true /\
+         (let o := sp_process pol mc ev val (abs rn) in
+          let '(i, c') := sp_drain pol mc val pend (o_conf o) in
+          items = i ++ o_items o /\ abs rn' = c' /\ code_ok code (o_taken o) (o_rejected o))).
+Proof.
+  intros mc Hcore pend fuel ev rn (Hok & Hp & Har) Hrun Hfuel Hfl Hmw Hev Hall.
+  pose proof (mkids_hch mc Hcore) as Hch. rewrite build_mp11. cbn [mp11_ops co_pei].
+  unfold pool_of in Hok.
+  eapply Lm_pei_direct_q; eauto.
+  apply apart_stored_next. lia.
+Qed.
+
+Theorem mp11_drain_q : forall mc, core mc -> forall pend fuel rn,
+  quietm pend mc rn -> running rn = true -> depth mc + 2 <= fuel -> 2 * length pend + 1 <= fuel -> (Z.of_nat fuel < MW)%Z ->
+  Forall (fun e => e_ty e <> EV_NONE) pend ->
+  sim val (co_drain (build cf parents false mc) fuel 0) rn
+      (fun _ rn' items => okm mc rn' /\ running rn' = true /\ (items, abs rn') = sp_drain pol mc val pend (abs rn)).
+Proof.
+  intros mc Hcore pend fuel rn (Hok & Hp & Har) Hrun Hfuel Hfl Hmw Hall.
+  pose proof (mkids_hch mc Hcore) as Hch. rewrite build_mp11. cbn [mp11_ops co_drain].
+  eapply sim_bind.
+  { unfold pool_of in Hok. eapply Lm_process_pool; eauto.
+    apply apart_stored. lia. }
+  cbn beta. intros n rn1 i1 H. apply sim_ret. rewrite app_nil_l. exact H.
+Qed.
+
+Theorem mp11_enqueue_q : forall mc pend e rn, quietm pend mc rn ->
+  sim val (co_enqueue (build cf parents false mc) e) rn
+      (fun _ rn' items => quietm (pend ++ [e]) mc rn' /\ running rn' = running rn /\ items = [] /\ abs rn' = abs rn).
+Proof.
+  intros mc pend e rn (Hok & Hp & Har). rewrite build_mp11. cbn [mp11_ops co_enqueue]. unfold mcb_enqueue, push_deferred.
+  eapply sim_bind; [apply (sim_get val rn (fun a rn1 i1 => a = rn /\ rn1 = rn /\ i1 = [])); auto|].
+  cbn beta. intros a rn1 i1 (-> & -> & ->). unfold push_msg. apply sim_modify.
+  pose proof (okmL_msgq _ _ Hok) as Hq. cbn [fst] in Hq. rewrite Hq.
+  split; [|split; [destruct rn; reflexivity | split; [reflexivity | apply abs_set_msgq]]].
+  split; [|split; [destruct rn; exact Hp | destruct rn; exact Har]].
+  set (X := pool_of rn pend ++ [QEv e 0 (wrap_mp11 (curseq rn - 1)) false]).
+  assert (E : pool_of (set_msgq rn X) (pend ++ [e]) = X) by (unfold X, pool_of; rewrite map_app; destruct rn; reflexivity).
+  rewrite E. eapply okmL_set_msgq. exact Hok.
+Qed.
+
+Theorem mp11_stop_q : forall mc, core mc -> forall pend fuel rn, quietm pend mc rn -> running rn = true ->
+  sim val (co_stop (build cf parents false mc) fuel) rn
+      (fun _ rn' items => quietm pend mc rn' /\ running rn' = false /\ (items, abs rn') = sp_stop mc (abs rn)).
+Proof.
+  intros mc Hcore pend fuel rn (HokL & Hp & Har) Hrun. pose proof (mkids_hch mc Hcore) as Hch. specialize (Har Hrun).
+  rewrite build_mp11. cbn [mp11_ops co_stop]. unfold mstop.
+  eapply sim_bind; [apply (sim_get val rn (fun a rn1 i1 => a = rn /\ rn1 = rn /\ i1 = [])); auto|].
+  cbn beta. intros a rn1 i1 (-> & -> & ->). rewrite Hrun. unfold mon_exit_pre.
+  set (ev := Evt EV_EXIT 0).
+  eapply sim_bind with (P := fun _ rn1 i1 => okmLq (pool_of rn pend, Some (curseq rn)) mc rn1 /\ processing rn1 = false /\ running rn1 = true /\
+                                              (i1, abs rn1) = sp_exit mc ev (abs rn)).
+  { eapply sim_bind; [apply (sim_get val rn (fun a rn1 i1 => a = rn /\ rn1 = rn /\ i1 = [])); auto|].
+    cbn beta. intros a rn1 i1 (-> & -> & ->). rewrite Hrun.
+    eapply sim_conseq.
+    { eapply Lm_exit_states with (items0 := []) (q := (pool_of rn pend, Some (curseq rn))); eauto.
+      - apply okmL_know. exact HokL.
+      - intros s Hs. apply In_act_run; assumption. }
+    cbn beta. intros u kn' items (H1 & H2 & H3 & H4 & H5 & H6). rewrite !app_nil_r in *.
+    split; [exact H1|]. split; [congruence|]. split; [congruence|].
+    rewrite H6. erewrite sp_exit_unfold by eauto.
+    rewrite (fold_whole (sp_exit_state (sp_exit_subs mc) ev) (sp_exit_state_act _ ev) (abs rn) (m_nreg mc)); [rewrite abs_act; reflexivity|].
+    rewrite abs_act. destruct HokL as (_ & L & _). exact L. }
+  cbn beta. intros u1 rn1 i1 (Hok1 & Hp1 & Hr1 & E1).
+  eapply sim_bind; [eapply sim_mcb|]. cbn beta. intros u2 rn2 i2 (-> & ->).
+  unfold mon_exit_post.
+  set (rn3 := match m_hist mc with HNone => rn1 | _ => set_hist rn1 (act rn1) end).
+  eapply sim_bind; [apply (sim_modify val _ rn1 (fun _ rn4 i4 => rn4 = rn3 /\ i4 = [])); auto|].
+  cbn beta. intros u3 rn4 i4 (-> & ->).
+  apply sim_modify.
+  assert (E3 : abs rn3 = sp_post_exit mc (abs rn1)).
+  { unfold rn3, sp_post_exit. destruct (m_hist mc); [reflexivity | |]; rewrite abs_set_hist, abs_act; reflexivity. }
+  assert (Hc3 : curseq rn3 = curseq rn) by (unfold rn3; rewrite <- (okmL_seq _ _ Hok1); destruct (m_hist mc); destruct rn1; reflexivity).
+  assert (Hok3 : okmLq (pool_of rn pend, None) mc rn3).
+  { apply okmL_forget in Hok1. unfold rn3. destruct Hok1 as ((Hq & _) & La & Lh & Hk).
+    destruct (m_hist mc); unfold okmLq, seq_is; destruct rn1; cbn in *; auto. }
+  split; [|split; [destruct rn3; reflexivity|]].
+  - split; [|split; [unfold rn3; destruct (m_hist mc); destruct rn1; exact Hp1 | destruct rn3; cbn; discriminate]].
+    replace (pool_of (set_running rn3 false) pend) with (pool_of rn pend) by (unfold pool_of; rewrite <- Hc3; destruct rn3; reflexivity).
+    apply okmL_set_running. exact Hok3.
+  - unfold sp_stop. fold ev. rewrite <- E1. rewrite !app_nil_l. cbn [app]. rewrite ?app_nil_r. rewrite abs_set_running, abs_act, E3. reflexivity.
+Qed.
+
+(* start() of a stopped machine without history of its own: the pool is emptied *)
+Theorem mp11_start_q : forall mc, core mc -> m_hist mc = HNone -> forall pend fuel rn, quietm pend mc rn -> running rn = false -> 1 <= fuel ->
+  sim val (co_start (build cf parents false mc) fuel) rn
+      (fun _ rn' items => okm mc rn' /\ running rn' = true /\ (items, abs rn') = sp_start_obs (act rn) mc (abs rn)).
+Proof.
+  intros mc Hcore Hh pend fuel rn (HokL & Hp & Har) Hnr Hf.
+  assert (Hok0 : okm mc (set_msgq rn [])).
+  { apply okm_unfold. split; [eapply okmL_set_msgq; exact HokL|]. split; [destruct rn; exact Hp|].
+    intros Hr. exfalso. destruct rn; cbn in *; congruence. }
+  pose proof (mp11_start mc Hcore Hh fuel (set_msgq rn []) Hok0 ltac:(destruct rn; exact Hnr) Hf) as H0.
+  intros g Hg. specialize (H0 g Hg). destruct H0 as (a & rn' & items & E & HP).
+  exists a, rn', items. split.
+  - rewrite <- E. rewrite build_mp11. cbn [mp11_ops co_start].
+    destruct g as [tr n plan v up bad]. destruct Hg as (Hpl & _ & _). cbn in Hpl. subst plan.
+    destruct rn as [ac ks hi mq dq cs pr ru]. cbn in Hnr. subst ru.
+    unfold mstart, mon_entry_pre, preprocess_entry, mon_entry_post, history_set_ids. rewrite Hh.
+    destruct mp11_entry_throw_resets; unfold on_throw, bind, modify, mcb, callback, callback_at, get, getg, putg; reflexivity.
+  - replace (act (set_msgq rn [])) with (act rn) in HP by (destruct rn; reflexivity). rewrite abs_set_msgq in HP. exact HP.
+Qed.
+
 
 End Mp11Whole.
